@@ -13,6 +13,11 @@ func Stats$1
   refines parser.StopOnErr
   modifies lastLogDate, err, firstLogDate, countLog
   ensures @counts [C07] countLog == old(countLog) + (if err == nil then 1 else 0)
+  // the dates (C07): the last date is that of the record just seen, the first date is set by the first record whose
+  // heading parses as a date in the configured layout, and never changes afterwards
+  ensures @last-date [C07] perr == nil && ParseTimeOk(sc.ReporterConfig.DateFormat, n.Header) ==> lastLogDate == ParseTimeVal(sc.ReporterConfig.DateFormat, n.Header)
+  ensures @first-date [C07] perr == nil && ParseTimeOk(sc.ReporterConfig.DateFormat, n.Header) && old(IsZeroT(firstLogDate)) ==> firstLogDate == ParseTimeVal(sc.ReporterConfig.DateFormat, n.Header)
+  ensures @first-kept [C07] perr != nil || !ParseTimeOk(sc.ReporterConfig.DateFormat, n.Header) || !old(IsZeroT(firstLogDate)) ==> firstLogDate == old(firstLogDate)
 func Stats$2
   props C08 C09 C10 C07
   refines parser.StopOnErr
